@@ -89,3 +89,29 @@ PROPS["C05"] = dict(
 )
 LEVEL_TEXT["C05"] = "Explicit-state model checking of the real BitFieldVec<W> against Vec<W> for every word type and a boundary set of widths (all widths for u8/u16 in thorough): every history up to the depth bound is executed on the implementation and all observations are compared in every reached state."
 TECHNIQUE["C05"] = "explicit-state BFS over operation histories executed on the real object per (word type, bit width), observational equivalence with a reference model in every state"
+
+RS_RULE = "case = (structure stack with parameters, shaped bit vector, tail state); vectors: every length 0..=L x {zeros, ones, alternating, single one / single zero at first/mid/last}, concatenations of <= K segments (kind in zeros/ones/alternating/one-every-7/64/65/512, length in word/block/sub-block boundaries +-1), gap families at the U16/U32 span switch (0xFFFF, 0x10000, 0x10001), sparse vectors of 32768/65536 +- delta bits with <= 3 ones (Select9 span classes, word count mod 4), inventory-quantum multiples with ragged tails; tail states fresh / popped / truncated (resize down from +70 ones) / two spare zero words; a case is non-trivial when the vector has at least one one and one zero"
+PROPS["C01"] = dict(
+    level="exploration",
+    engine="E1",
+    parts=[dict(bin="e1_rank_sel", opts={"prop": "C01"})],
+    rule=RS_RULE,
+    alphabet="Rank9; RankSmall<2,9|1,9|1,10|1,11|3,13>; each under Select9, SelectAdapt, SelectZeroAdapt, SelectAdaptConst, SelectZeroAdaptConst, SelectSmall, SelectZeroSmall in both nesting orders (25 rank-capable stacks)",
+    bound={"quick": "L=600, K=1 over 26 lengths, K=2 over 10 lengths x 7 kinds; all p in 0..=len+2 and usize::MAX (boundary set beyond 2200 bits)", "thorough": "L=1100, K<=2 over 26 lengths x 7 kinds, K=3 over 9 lengths"},
+    oracle="prefix-popcount table of the Vec<bool> model: rank(p) = ones among first min(p,len) bits, rank_zero(p) = p - rank(p) for p <= len, num_ones/num_zeros/count_ones/count_zeros/len and Index equal the model",
+    assumptions=STRICT + ["bit vectors with garbage supplied through unsafe from_raw_parts are outside C01/C02 (the property names stale bits left by pop/truncation)"],
+)
+LEVEL_TEXT["C01"] = "Exhaustive enumeration of a declared space of shaped bit vectors x tail states x every rank-capable structure stack, all positions compared with a prefix-popcount reference. Small-scope exhaustive is the right level: counters are packed per 64/256/512/.../8192-bit block, so every packing lane, saturated block and boundary is reached by the boundary-length grammar."
+TECHNIQUE["C01"] = "bounded-exhaustive enumeration of inputs x configurations against a linear-scan reference model"
+PROPS["C02"] = dict(
+    level="exploration",
+    engine="E1",
+    parts=[dict(bin="e1_rank_sel", opts={"prop": "C02"})],
+    rule=RS_RULE,
+    alphabet="Select9; SelectAdapt/SelectZeroAdapt::{new(m), with_span(L,m), with_inv(k,m)} k in {0,1,3,5,12} (thorough 0,1,2,3,4,5,9,12), m in {0,1,3} (thorough 0..3), L in {1,64,8192}; Select(Zero)AdaptConst<K,M> for (0,0) (1,0) (2,1) (4,2) (12,3) (13,0); Select(Zero)Small x5 with_inv(b) b in {1,2,8,100}; both nesting orders; bases AddNumBits<BitVec>, Rank9, RankSmall",
+    bound={"quick": "same vectors as C01 quick; all r in 0..=count+1 and usize::MAX (boundary set beyond 2200)", "thorough": "same vectors as C01 thorough"},
+    oracle="ones/zeros position lists of the Vec<bool> model: select(r) = Some(position of the r-th one) iff r < m, select_zero likewise; rank(select(r)) = r on stacks that offer both",
+    assumptions=STRICT + ["the 64-bit span encoding needs ones more than 2^32 bits apart and is not exercised (see DESIGN.md section 8)"],
+)
+LEVEL_TEXT["C02"] = "Exhaustive enumeration of shaped bit vectors x tail states x every selection structure, parameter value and nesting order, every rank r compared with the reference position lists."
+TECHNIQUE["C02"] = "bounded-exhaustive enumeration of inputs x configurations against a linear-scan reference model"
